@@ -136,6 +136,10 @@ S_RO = [["RescaleObservation", "matched"]]
 S_CR = [["ClipReward"]]
 S_ID = [["Identity"]]
 S_ALL_BOX = [["RescaleAction"], ["ClipAction"], ["TimeLimit", 3], ["ClipReward"], ["RescaleObservation", "matched"], ["ClipObservation"], ["FlattenObservation"]]
+# the reverse nesting: observation wrappers innermost, action wrappers outermost (an outer wrapper must advertise the space of what it
+# directly wraps, not of the bare environment)
+S_REV_BOX = [["RescaleObservation", "matched"], ["ClipObservation"], ["ClipReward"], ["TimeLimit", 3], ["RescaleAction"], ["ClipAction"]]
+S_REV_RO_CA = [["RescaleObservation", "matched"], ["ClipAction"]]
 S_ALL_DISC = [["TimeLimit", 3], ["ClipReward"], ["RescaleObservation", "matched"], ["ClipObservation"], ["FlattenObservation"]]
 # RescaleObservation / RescaleAction called with their DEFAULT finite target range over a box that has
 # an unbounded component (gymnasium asserts against this; lerax computes 0 * inf)
@@ -174,7 +178,7 @@ def applicable_stacks(name: str, which: str):
     if which == "each":
         return base
     if which == "each+":
-        return base + [S_ID, S_ALL_DISC if disc else S_ALL_BOX]
+        return base + [S_ID, S_ALL_DISC if disc else S_ALL_BOX] + ([] if disc else [S_REV_BOX, S_REV_RO_CA])
     raise HarnessError(which)
 
 
@@ -861,7 +865,7 @@ def explore(ctx: Ctx):
             for cfg in [c for c in cfgs if "solver" not in c]:
                 add_tree(name, cfg, all_in_one, k_side, d_side)
             H = 2000 if thorough else 400
-            long_stacks = [[], S_RO, S_CO] + ([S_FO, S_CR] if thorough else [])
+            long_stacks = [[], S_RO, S_CO] + ([S_FO, S_CR] if thorough else []) + ([] if disc else [S_REV_RO_CA] + ([S_REV_BOX] if thorough else []))
             for cfg in [{}] + cfgs:
                 for stack in long_stacks:
                     for pol in policy_family(name, OBS_DIM[name]):
